@@ -28,6 +28,9 @@ struct Model {
     hi: BTreeMap<u64, u64>,
     fin: BTreeMap<u64, (u64, bool)>,
     reset_seen: std::collections::BTreeSet<u64>,
+    /// streams the victim's application stopped (it may forget them as soon as their final size
+    /// is known)
+    stopped: std::collections::BTreeSet<u64>,
     total: u64,
 }
 
@@ -60,9 +63,9 @@ impl Model {
         let bidi = id & 2 == 0;
         let idx = id >> 2;
         let mut codes = vec![];
-        if idx >= if bidi { a.bidi } else { a.uni } {
-            // nothing else is knowable about a stream that may not exist
-            return Expect { codes: vec!["STREAM_LIMIT_ERROR"], lenient: false };
+        let over_stream_limit = idx >= if bidi { a.bidi } else { a.uni };
+        if over_stream_limit {
+            codes.push("STREAM_LIMIT_ERROR");
         }
         let hi = self.hi.get(&id).copied().unwrap_or(0);
         let mut lenient = false;
@@ -70,7 +73,7 @@ impl Model {
             let by_reset = self.reset_seen.contains(&id);
             // once the final size is known a reading victim may have consumed and forgotten the
             // stream; a reset stream drops late STREAM frames without looking at them
-            lenient = victim_reads || (by_reset && !is_reset);
+            lenient = victim_reads || (by_reset && !is_reset) || self.stopped.contains(&id);
             let bad = if is_reset { end != f } else { end > f || (fin && end != f) };
             if bad {
                 codes.push("FINAL_SIZE_ERROR");
@@ -81,6 +84,10 @@ impl Model {
         let new = end.saturating_sub(hi);
         if end > a.stream || self.total.saturating_add(new) > a.conn {
             codes.push("FLOW_CONTROL_ERROR");
+        }
+        if over_stream_limit {
+            // (when the frame breaks other rules as well, any of their codes is acceptable)
+            return Expect { codes, lenient: false };
         }
         if codes.is_empty() {
             self.total += new;
@@ -211,6 +218,7 @@ fn case(seed: u64, trace: bool) -> CaseOut {
     let n_probes = 1 + r.below(8);
     let mut violations = vec![];
     let mut rwnd_max = vt.rwnd;
+    let mut stopped = std::collections::BTreeSet::new();
     let (ve, vch) = s.victim;
     let (ae, ach) = s.attacker;
     for step in 0..n_probes {
@@ -221,6 +229,21 @@ fn case(seed: u64, trace: bool) -> CaseOut {
             s.w.apply_op(Op::SetRecvWindow { ep: ve, v });
             script.push(format!("victim.set_receive_window({v})"));
             settle(&mut s.w);
+        }
+        if !victim_reads && r.chance(25) && !m.hi.is_empty() {
+            // the victim's application gives up on a stream it never read (whatever arrived on it -
+            // data, a FIN, a reset - is discarded unread)
+            let ids: Vec<u64> = m.hi.keys().copied().collect();
+            let id = *r.pick(&ids);
+            if !stopped.contains(&id) {
+                let sid = proto::StreamId::from(proto::VarInt::from_u64(id).unwrap());
+                let res = s.w.eps[ve].conns.get_mut(&vch).unwrap().c.recv_stream(sid).stop(proto::VarInt::from_u32(9));
+                script.push(format!("victim.stop({id}) -> {}", if res.is_ok() { "ok" } else { "closed" }));
+                stopped.insert(id);
+                m.stopped.insert(id);
+                out.cnt.inc("c06.victim_stops");
+                settle(&mut s.w);
+            }
         }
         let a0 = adv(&s.w, s.attacker);
         // choose a probe; values sit at limit-1 / limit / limit+1 of the rule it targets
@@ -235,7 +258,9 @@ fn case(seed: u64, trace: bool) -> CaseOut {
         let a = Adv { stream: adv_stream(&s.w, s.attacker, id), ..a0 };
         let hi = m.hi.get(&id).copied().unwrap_or(0);
         // the attacker's own quinn must know the stream (the victim may answer on it)
-        if idx < lim_streams {
+        // (by the victim's own count, which may run ahead of what it advertised)
+        let victim_max = s.w.eps[ve].conns[&vch].c.verif_probe().streams.max_remote[if bidi { 0 } else { 1 }];
+        if idx < lim_streams.max(victim_max) {
             let dir = if bidi { proto::Dir::Bi } else { proto::Dir::Uni };
             let ac = &mut s.w.eps[ae].conns.get_mut(&ach).unwrap().c;
             while ac.verif_probe().streams.next[dir as usize] <= idx {
@@ -330,6 +355,9 @@ fn case(seed: u64, trace: bool) -> CaseOut {
             }
             _ => {}
         }
+        // a stream index at or above the advertised limit but below the limit the victim already
+        // computed for its next MAX_STREAMS frame (see known findings)
+        let pending_tag = if matches!(frame, Frame::Stream { .. } | Frame::ResetStream { .. }) && idx >= lim_streams && idx < victim_max { " [index below the victim's pending, not yet advertised, stream limit]" } else { "" };
         script.push(format!("{frame:?} adv={a:?} => {expect:?}"));
         let mut bytes = vec![];
         frame.encode(&mut bytes);
@@ -351,14 +379,27 @@ fn case(seed: u64, trace: bool) -> CaseOut {
             let named = |l: &Vec<String>| l.len() == 1 && expect.codes.iter().any(|c| l[0].contains(c));
             if lost.is_empty() && alost.is_empty() {
                 if !expect.lenient {
-                    violations.push(format!("victim accepted a frame that breaks its advertised limits; it should close with {:?}", expect.codes));
+                    violations.push(format!("victim accepted a frame that breaks its advertised limits; it should close with {:?}{pending_tag}", expect.codes));
                 }
+            } else if !named(&lost) && lost.len() == 1 && lost[0].starts_with("ConnectionClosed(") && alost.len() == 1 && alost[0].contains("operation on unopened stream") {
+                // the victim accepted the frame and answered on that stream; the attacker's own
+                // (honest) stack, which never opened it, then aborted
+                violations.push(format!("victim accepted a frame that breaks its advertised limits; it should close with {:?}{pending_tag} (its answer made the peer's stack abort: {alost:?})", expect.codes));
             } else if !named(&lost) {
                 violations.push(format!("victim should close with {:?}; it reported {lost:?}", expect.codes));
             } else if !named(&alost) {
                 violations.push(format!("victim closed with {lost:?} but its peer was told {alost:?}"));
             } else {
                 out.cnt.inc("c06.closed_with_prescribed_code");
+            }
+        }
+        // credit is returned only for data that was consumed or discarded: the connection-level
+        // limit never runs ahead of the window by more than what the peer actually used
+        out.cnt.inc("c06.credit_bound_checks");
+        {
+            let p = s.w.eps[ve].conns[&vch].c.verif_probe();
+            if rwnd_max < (1 << 40) && p.streams.local_max_data > rwnd_max.saturating_add(m.total) {
+                violations.push(format!("the victim's connection-level limit is {}, more than its receive window {rwnd_max} plus the {} bytes its peer ever used", p.streams.local_max_data, m.total));
             }
         }
         // buffered-bytes bound (probe)
@@ -442,6 +483,15 @@ fn credit_case(seed: u64, trace: bool) -> CaseOut {
         t.rwnd = *r.pick(&[1500, 10_000, 60_000, 400_000]);
         t.stream_rwnd = *r.pick(&[800, 5_000, 40_000, 300_000]);
     }
+    // plenty of aborts from both ends, so that stops meet resets (in either order) and unread data
+    for a in h.cli_app.iter_mut().chain([&mut h.srv_app]) {
+        a.stop_pct = *r.pick(&[10, 50, 90]);
+        for p in a.plans.iter_mut() {
+            if r.chance(40) {
+                p.end = crate::app::EndMode::ResetAt { at: r.below(p.len + 1), code: r.below(1000) };
+            }
+        }
+    }
     // the bound uses the configured window; run-time window changes are exercised by the probe
     // group above
     h.ops.retain(|(_, op)| !matches!(op, Op::SetRecvWindow { .. }));
@@ -487,6 +537,8 @@ pub fn run(ctx: &Ctx) -> i32 {
                 "c06.close_expected.CRYPTO_BUFFER_EXCEEDED",
                 "c06.closed_with_prescribed_code",
                 "c06.buffer_checks",
+                "c06.credit_bound_checks",
+                "c06.victim_stops",
                 "c06.delivery_checks",
                 "c06.credit_checks",
             ],
